@@ -353,7 +353,7 @@ func checkC02(c *Ctx, r *Report) {
 			for _, a := range args {
 				if isNamed(a.Type(), "net/http", "ResponseWriter") || isNamed(a.Type(), "net/http", "Request") || isEndpointPtr(a.Type()) {
 					n++
-					if !own[a] {
+					if !own[a] && !own[resolveOrigin(c, a, 6)] {
 						bad = append(bad, fmt.Sprintf("%s: %s argument %s is not this attempt's own parameter", c.Pos(in.Pos()), a.Type(), a.Name()))
 					}
 				}
